@@ -213,6 +213,37 @@ def fault_pass(ctx):
     return ctx.judge_traces(trace, spec["props"], spec["invs"], label="faults")
 
 
+def schedule_pass(ctx):
+    """Binding B2: behaviours of the system model (TLC simulation of Cluster.tla through Sched.tla) are replayed, label by label,
+    into the real reconcilers; the resulting REAL trace is judged by the property's formulas and measured for conformance."""
+    spec = plan.SCHED.get(ctx.pid)
+    if not spec:
+        return True
+    props, invs = plan.TRACE.get(ctx.pid, ([], []))
+    num, depth = (40, 50) if ctx.tier == "quick" else (400, 70)
+    cfg = open(os.path.join(vcheck.SPEC, "Sched_%s.cfg" % spec)).read().replace("Depth = 60", "Depth = %d" % depth)
+    rc, out, dt, d = ctx.tlc("Sched.tla", cfg, "sched-" + spec, workers=1, timeout=900, extra=["-simulate", "num=%d" % num, "-depth", str(depth + 1), "-seed", str(ctx.seed)])
+    scheds = []
+    for m in re.finditer(r'<<\s*"SCHED",\s*<<(.*?)>>\s*>>', out, re.S):
+        scheds.append(re.findall(r'"([^"]+)"', m.group(1)))
+    if not scheds:
+        raise vcheck.MachineryError("no schedule generated by TLC simulation:\n" + out[-1500:])
+    sfile = os.path.join(ctx.work, "schedules.json")
+    nodes = ["n1", "n2", "n3"]
+    json.dump({"config": spec, "nodes": nodes, "tmpls": ["A", "B"], "schedules": scheds}, open(sfile, "w"))
+    trace = os.path.join(ctx.work, "schedules.ndjson")
+    o, dt2 = ctx.sim(["schedules", "-in", sfile, "-out", trace])
+    info = json.loads(o.strip().splitlines()[-1])
+    ctx.cov["passes"].append({"pass": "b2-schedules:" + spec, "tlc_wall_s": round(dt, 1), "harness_wall_s": round(dt2, 1), **info})
+    ctx.cov["traces_validated_against_impl"] += info["schedules"]
+    ctx.cov["evaluations"] += info["events"]
+    ctx.cov["samples"].append({"schedule": scheds[0][:25]})
+    ok = ctx.judge_traces(trace, props, invs, label="b2")
+    if ok:
+        conformance_pass(ctx, trace)
+    return ok
+
+
 def race_pass(ctx):
     """C17: the batch vectors (parallel pod operations with failing API calls) and the concurrent mode (four reconcilers,
     kubelet, clock and user as goroutines on one store) run in a binary built with the race detector.  A race report is the
@@ -260,6 +291,8 @@ def race_pass(ctx):
 
 def run_property(ctx):
     ok = trace_pass(ctx)
+    if ok:
+        ok = schedule_pass(ctx)
     if ok:
         ok = race_pass(ctx)
     if ok:
